@@ -41,6 +41,7 @@ type Violation struct {
 
 type Run struct {
 	ID          string
+	Part        string
 	Tier        string
 	Seed        int
 	Level       string
@@ -98,9 +99,17 @@ func HasFlag(name string) bool {
 	return false
 }
 
+// Start begins a check run. With VERIF_AS=<ID> VERIF_PART=<name> the binary runs as one part of
+// another property's check (C12 re-runs the worlds of other properties with its tracker on): the
+// result is reported under <ID> and the evidence goes to evidence/.parts/<ID>-<name>.json.
 func Start(id, level string) *Run {
 	seed, _ := strconv.Atoi(os.Getenv("VERIF_SEED"))
-	r := &Run{ID: id, Tier: tierFromArgs(), Seed: seed, Level: level, Coverage: map[string]any{},
+	part := ""
+	if as := os.Getenv("VERIF_AS"); as != "" {
+		id, part = as, os.Getenv("VERIF_PART")
+		level = "model_checking"
+	}
+	r := &Run{ID: id, Part: part, Tier: tierFromArgs(), Seed: seed, Level: level, Coverage: map[string]any{},
 		start: time.Now(), violations: map[string]*Violation{}, vcount: map[string]int{}, known: map[string]Finding{}}
 	b, err := os.ReadFile(filepath.Join(Root, "known_findings.json"))
 	if err == nil {
@@ -238,7 +247,12 @@ func (r *Run) Finish() {
 	if err != nil {
 		EngineError("evidence marshal: %v", err)
 	}
-	if err := os.WriteFile(filepath.Join(Root, "evidence", r.ID+".json"), append(b, '\n'), 0o644); err != nil {
+	evPath := filepath.Join(Root, "evidence", r.ID+".json")
+	if r.Part != "" {
+		_ = os.MkdirAll(filepath.Join(Root, "evidence", ".parts"), 0o755)
+		evPath = filepath.Join(Root, "evidence", ".parts", r.ID+"-"+r.Part+".json")
+	}
+	if err := os.WriteFile(evPath, append(b, '\n'), 0o644); err != nil {
 		EngineError("evidence write: %v", err)
 	}
 	if !r.Quiet {
